@@ -384,5 +384,6 @@ CLAUSES = [
         shards_quick=4,
         required=("merged-plain-x-html-with-metachar", "op:update", "op:set", "op:add_class", "op:add_style", "benign-readback"),
         rule="a plain part with a metacharacter",
+        fuzz=60000,
     ),
 ]
